@@ -33,5 +33,7 @@ SEEDED = [
     ("C11-3", "C11-OWN"),
     ("C11-4", "C11-PRED"),
     ("C11-5", "C11-OWN"),
+    ("C11-6", "C11-DIR"),
+    ("C11-7", "C11-PROP"),
 ]
 MUTANTS = list(MUTANTS) + [_P("seed-" + sid, _os.path.join(_SEEDS, sid, "patch.diff"), rule) for sid, rule in SEEDED if _os.path.exists(_os.path.join(_SEEDS, sid, "patch.diff"))]
